@@ -18,7 +18,7 @@ STATKEY = [('O', 'Opens'), ('U', 'Updates'), ('N', 'Notifications'), ('K', 'Keep
 
 
 # model-level REST request kinds (Session.tla, action Rest) -> the real request and its description for the C16 clauses
-_RQ0 = {'cls': '', 'valid': False, 'etype': '', 'wdn': 0, 'nln': 0, 'ats': [], 'ibgp': False}
+_RQ0 = {'cls': '', 'valid': False, 'etype': '', 'wdn': 0, 'nln': 0, 'ats': [], 'ibgp': False, 'lp': -1}
 _UPD_BODY = {'attr': {'1': 0, '2': [[2, [65001]]], '3': '10.0.0.1'}, 'nlri': ['10.5.0.0/16']}
 REST_KINDS = {
     'SEND_UPDATE': ('send/update', 'POST', 'good', _UPD_BODY, dict(_RQ0, cls='send', valid=True, etype='UPDATE', nln=1, ats=[1, 2, 3])),
@@ -141,7 +141,7 @@ class Recorder(object):
             'wR': [self.recv.get(tr, self.cnt())[b] for b, _ in STATKEY] if tr else [],
             'rest': self.rest_rec(o['rest']),
             'fz': '', 'flen': 0, 'probeok': True, 'aspathok': True, 'acc': 0, 'esub': 0,
-            'rq': {'cls': '', 'valid': False, 'etype': '', 'wdn': 0, 'nln': 0, 'ats': [], 'ibgp': False}, 'statsame': True,
+            'rq': dict(_RQ0), 'statsame': True,
         }
         if extra:
             line.update(extra)
